@@ -19,12 +19,15 @@ RULE = ("Vertex lists of 0..16 distinct list objects: integer lattice (exact), n
         "inputs with dyadic tolerance, which pins the strictness of '<'). Non-trivial: >= 1 vertex deleted. "
         "Distinct = (vertices, tolerance).")
 ASSUMPTIONS = [
+    "the agreement of the fast predicate with the reference measurement is asserted for coordinates that are exactly "
+    "representable as floats (the reference computes in floats); integer coordinates beyond 2^53 are judged by the "
+    "exact oracle alone",
     "the statement is one-directional: it does not claim that as many vertices as possible are removed",
     "continuous inputs: distances within 1e-9 (relative) of the tolerance are don't-care",
 ]
 REQUIRED_CLASSES = ["nontrivial", "lattice", "walk", "arc", "hook", "closed", "repeated_points", "tol<=0",
                     "len<=2", "run_of_deletions", "nothing_deleted", "predicate_true", "predicate_false",
-                    "exact_tie", "almost_closed", "rescaled_by_power_of_two", "len>=66", "long_run", "far_chord", "vertices_as_tuples", "far_from_origin"]
+                    "exact_tie", "almost_closed", "rescaled_by_power_of_two", "len>=66", "long_run", "far_chord", "vertices_as_tuples", "far_from_origin", "big_ints"]
 QUICK_SHARDS = 4
 
 plot_utils = sut.load("plot_utils")
@@ -125,7 +128,10 @@ def body(ctx, case):
                 ctx.fail("points_in_tolerance(%r, %r) = %r but the exact maximum distance is %.17g"
                          % (case["points"], tol, fast, math.sqrt(float(d2))), case)
             ref = call_sut(plot_utils.max_dist_from_n_points, [list(p) for p in original])
-            if isinstance(ref, float) and not math.isnan(ref):
+            # the reference measures in floats (it returns one); coordinates that are not floats to begin with
+            # (integers beyond 2^53) are outside what it can measure, so only the exact oracle judges them
+            representable = all(F(float(c)) == F(c) for p_ in original for c in p_)
+            if isinstance(ref, float) and not math.isnan(ref) and representable:
                 ref_band = abs(F(ref) ** 2 - t2) <= 4 * rel * max(d2, t2)
                 if not ref_band and (ref < tol) != bool(fast):
                     ctx.record(case, classes, deleted > 0)
@@ -144,9 +150,9 @@ DYADIC_TOL = st.sampled_from([0.5, 1.0, 2.0, 0.25, 3.0, 5.0, 1.5, 8.0])
 @st.composite
 def cases(draw):
     kind = draw(st.sampled_from(["lattice", "lattice", "walk", "walk", "walk", "arc", "hook", "uniform",
-                                 "tiny", "long_run", "far_chord"]))
+                                 "tiny", "long_run", "far_chord", "big_ints"]))
     n = draw(st.one_of(st.integers(0, 4), st.integers(3, 16)))
-    lattice = kind in ("lattice", "tiny", "long_run")
+    lattice = kind in ("lattice", "tiny", "long_run", "big_ints")
     pts = []
     if kind == "long_run":
         # a long removable run (60..200 vertices on a line, optionally with sub-tolerance wiggle), then a bend in
@@ -163,6 +169,16 @@ def cases(draw):
         if draw(st.booleans()):
             for i in range(draw(st.sampled_from([3, 64, 70]))):
                 pts.append([float(m + tail + i), pts[-1][1] if i else pts[-1][1]])
+    elif kind == "big_ints":
+        # integer coordinates (device units) beyond 2^53: integer arithmetic is exact, conversion to float is not
+        base_x = draw(st.sampled_from([2 ** 53, 2 ** 60, -2 ** 60, 10 ** 18, 0]))
+        base_y = draw(st.sampled_from([2 ** 53, 2 ** 60, 0, 0, -10 ** 18]))
+        x = y = 0
+        for _ in range(max(n, 3)):
+            x += draw(st.sampled_from([0, 1, 40, 1000, -40, 7]))
+            y += draw(st.sampled_from([0, 0, 3, -3, 50, -50]))
+            pts.append([base_x + x, base_y + y])
+        tol = draw(st.sampled_from([1, 2, 10, 100]))
     elif kind == "far_chord":
         # a chord 1e5..1e9 times longer than the tolerance with vertices a few tolerances (or a fraction) off it
         length = 10.0 ** draw(st.integers(0, 4))
@@ -237,7 +253,7 @@ def cases(draw):
         pts.append(list(pts[0]))
         closed = True
     almost = False
-    if not closed and len(pts) >= 3 and draw(st.integers(0, 7)) == 0:
+    if not closed and len(pts) >= 3 and kind != "big_ints" and draw(st.integers(0, 7)) == 0:
         # a loop whose last vertex misses the first by float noise (non-zero, far below any sensible tolerance)
         size = max(max(abs(c) for p in pts for c in p), 1e-300)
         gap = size * draw(st.sampled_from([2.0 ** -30, 2.0 ** -40, 2.0 ** -50]))
@@ -248,7 +264,7 @@ def cases(draw):
     if draw(st.integers(0, 11)) == 0:
         tol = draw(st.sampled_from([0.0, -1.0, 1e300]))
     shift = 0
-    if tol not in (1e300,) and draw(st.integers(0, 2)) == 0:
+    if tol not in (1e300,) and kind != "big_ints" and draw(st.integers(0, 2)) == 0:
         # the same drawing in other units: a power-of-two factor keeps every float operation exact, so the answer
         # must be the same subsequence; absolute thresholds inside the code show up here
         shift = draw(st.sampled_from([-60, -40, -30, -20, -10, 10, 20, 40, 60]))
@@ -256,7 +272,7 @@ def cases(draw):
         pts = [[p[0] * f, p[1] * f] for p in pts]
         tol = tol * f
     moved = False
-    if pts and tol not in (1e300,) and draw(st.integers(0, 3)) == 0:
+    if pts and tol not in (1e300,) and kind != "big_ints" and draw(st.integers(0, 3)) == 0:
         # the same drawing somewhere else on a large sheet / in other user units: translate by 1e3..1e8 extents.
         # Differences of neighbouring coordinates stay exactly representable relative to the offset (the tie band
         # is computed from the largest coordinate), but anything computed from ABSOLUTE coordinates loses digits
